@@ -148,6 +148,7 @@ func flatKinds(cs [][]string) []string {
 }
 
 func runC23(c *Ctx) {
+	runC23IntPairs(c, "C23.int-converters")
 	const pk = "common/codec"
 
 	// ------------------------------------------------------------ writer tables
@@ -878,4 +879,72 @@ func runC23(c *Ctx) {
 			}
 		}
 	}
+}
+
+// runC23IntPairs: integers cross the codec only through matching converter
+// pairs of common/intconv — sizes: SizeToBytes ↔ SafeBytesToSize; unsigned:
+// Uint64ToBytes ↔ SafeBytesToUint64; signed: Int64ToBytes ↔ SafeBytesToInt64;
+// big: BigIntToBytes ↔ BigIntSetBytes — and the RLP value writer hands
+// writeBytes nothing but these encodings (or the bool byte / string bytes).
+// The pairs fix the byte form of every integer, among them the trie keys of
+// the transaction and receipt lists (C22), whose order is the index order only
+// for this form (0 ↦ 0x00, sign pad for a set top bit).
+func runC23IntPairs(c *Ctx, rule string) {
+	const pkg = "common/codec"
+	type use struct {
+		recv, fn, callee string
+		arg              string // expected rendering of the argument ("" = any)
+	}
+	for _, u := range []use{
+		{"", "sizeToBytes", "common/intconv.SizeToBytes", ""},
+		{"", "bytesToSize", "common/intconv.SafeBytesToSize", ""},
+		{"rlpReader", "readUintValue", "common/intconv.SafeBytesToUint64", ""},
+		{"rlpReader", "readIntValue", "common/intconv.SafeBytesToInt64", ""},
+		{"rlpWriter", "WriteValue", "common/intconv.Uint64ToBytes", "$0.Uint()"},
+		{"rlpWriter", "WriteValue", "common/intconv.Int64ToBytes", "$0.Int()"},
+	} {
+		f := c.fn(pkg, u.recv, u.fn)
+		if f == nil {
+			c.undecided(rule, u.fn, token.NoPos, "function not found")
+			continue
+		}
+		cs := c.calls(f, byCallee(u.callee))
+		okU := len(cs) == 1
+		got := ""
+		if okU && u.arg != "" {
+			_, a := callArgs(cs[0].Common())
+			got = render(a[0])
+			okU = got == u.arg
+		}
+		c.check(okU, rule, u.fn+" converts with "+strings.TrimPrefix(u.callee, "common/"), f.Pos(), "paired converter", fmt.Sprintf("%d calls of %s (argument %s): writer and reader no longer use the matching pair", len(cs), u.callee, got))
+	}
+	// the value writer emits only the paired encodings
+	if f := c.fn(pkg, "rlpWriter", "WriteValue"); f != nil {
+		n := 0
+		for _, cs := range c.calls(f, byMethod("writeBytes")) {
+			_, a := callArgs(cs.Common())
+			r := render(a[0])
+			n++
+			okA := r == "intconv.Uint64ToBytes($0.Uint())" || r == "intconv.Int64ToBytes($0.Int())" || r == "[]byte($0.String())" || r == "$0.String()" || strings.HasPrefix(r, "alloc<*[1]byte>")
+			c.check(okA, rule, "WriteValue writes a paired encoding", cs.Pos(), r, "WriteValue writes "+r+": not the byte form the reader's converter (and the index order of the list tries) expects")
+		}
+		if n < 4 {
+			c.undecided(rule, "WriteValue", f.Pos(), fmt.Sprintf("expected ≥4 writeBytes calls, found %d", n))
+		}
+	}
+	// big integers: nothing in the codec reads or writes big.Int magnitudes directly
+	nBig := 0
+	for _, f := range c.pkgFuncs(pkg) {
+		for _, cs := range c.calls(f, func(cc *ssa.CallCommon) bool {
+			n := calleeName(cc)
+			return n == "(*math/big.Int).Bytes" || n == "(*math/big.Int).SetBytes" || n == "(*math/big.Int).FillBytes"
+		}) {
+			c.violate(rule, "big integers pass through intconv", cs.Pos(), fnName(f)+" calls "+calleeName(cs.Common())+" directly: the sign is lost (−5 ↦ 5, 128 ↦ −128)")
+		}
+		for _, cs := range c.calls(f, byCallee("common/intconv.BigIntToBytes", "common/intconv.BigIntSetBytes")) {
+			_ = cs
+			nBig++
+		}
+	}
+	c.check(nBig == 2, rule, "big.Int: BigIntToBytes ↔ BigIntSetBytes", token.NoPos, "one encoder use, one decoder use", fmt.Sprintf("%d uses of the big-integer pair", nBig))
 }
